@@ -27,6 +27,12 @@ void ReparametrizationFunctionWrapper::init_(bool verbose)
     else
     {
       auto interval = dynamic_pointer_cast<IntervalConstraint>(constraint);
+      // A finite interval too narrow for the corrected bounds and the corrected value to stay ordered
+      // (narrower than 2 or 3 TINY) cannot be reparametrized: the transformed value would be NaN.
+      auto checkRoom = [&p](double lower, double corrected, double upper) {
+        if (!(lower < corrected && corrected < upper))
+          throw ConstraintException("ReparametrizationFunctionWrapper::init_. Interval too narrow to be reparametrized", &p, corrected);
+      };
       if (interval)
       {
         bool isInfinite = (!interval->finiteLowerBound()) || (!interval->finiteUpperBound());
@@ -41,6 +47,7 @@ void ReparametrizationFunctionWrapper::init_(bool verbose)
               correctedValue = interval->getLowerBound() + NumConstants::TINY();
             if (abs(value - interval->getUpperBound()) < NumConstants::TINY())
               correctedValue = interval->getUpperBound() - NumConstants::TINY();
+            checkRoom(interval->getLowerBound(), correctedValue, interval->getUpperBound());
             IntervalTransformedParameter* pp = new IntervalTransformedParameter(name, correctedValue, interval->getLowerBound(), interval->getUpperBound());
             addParameter_(pp);
             if (verbose)
@@ -60,6 +67,7 @@ void ReparametrizationFunctionWrapper::init_(bool verbose)
               correctedValue = lowerBound + NumConstants::TINY();
             if (upperBound - value < NumConstants::TINY())
               correctedValue = upperBound - NumConstants::TINY();
+            checkRoom(lowerBound, correctedValue, upperBound);
             IntervalTransformedParameter* pp = new IntervalTransformedParameter(name, correctedValue, lowerBound, upperBound);
             addParameter_(pp);
             if (verbose)
@@ -76,6 +84,7 @@ void ReparametrizationFunctionWrapper::init_(bool verbose)
             double upperBound = interval->getUpperBound() - NumConstants::TINY();
             if (upperBound - value < NumConstants::TINY())
               correctedValue = upperBound - NumConstants::TINY();
+            checkRoom(interval->getLowerBound(), correctedValue, upperBound);
             IntervalTransformedParameter* pp = new IntervalTransformedParameter(name, correctedValue, interval->getLowerBound(), upperBound);
             addParameter_(pp);
             if (verbose)
@@ -92,6 +101,7 @@ void ReparametrizationFunctionWrapper::init_(bool verbose)
               correctedValue = lowerBound + NumConstants::TINY();
             if (abs(value - interval->getUpperBound()) < NumConstants::TINY())
               correctedValue = interval->getUpperBound() - NumConstants::TINY();
+            checkRoom(lowerBound, correctedValue, interval->getUpperBound());
             IntervalTransformedParameter* pp = new IntervalTransformedParameter(name, correctedValue, lowerBound, interval->getUpperBound());
             addParameter_(pp);
             if (verbose)
